@@ -420,6 +420,8 @@ def check_c07(run):
                                  ("rebuild-2d-h4", fmm_constants(2, 4, POOL_2D_H4[:5], bss=(1, 2, 3), hists=("move1", "move2")))])
     # both trees of the target/source variant
     run_fmm_configs(run, "C07", [("tsm-1d-h4", fmm_constants(1, 4, range(5), mode="tsm", bss=(1, 2, 3)))])
+    # code -> spec: group structures of large random trees (after construction and after moves + rebuild) validated by TLC (FmmTrace!TTree)
+    trace_campaign(run, "C07", run.tier, modes=(0, 1), events=1 | 4)
     run.coverage["rule"] = TREE_RULE
     run.coverage["exhaustive"] = True
     run.assumptions += FMM_ASSUME[:1] + FMM_ASSUME[2:]
@@ -430,6 +432,8 @@ def check_c16(run):
     run_fmm_configs(run, "C16", tree_configs(run.tier), module="BlockTreeMC", shards=8, workers=1, parallel=2)
     run_fmm_configs(run, "C16", [("tsm-1d-h4", fmm_constants(1, 4, range(5), mode="tsm", bss=(1, 2, 3))),
                                  ("rebuild-1d-h5", fmm_constants(1, 5, POOL_1D_H5[:6], bss=(1, 2, 3), hists=("move1",)))])
+    # code -> spec: look-ups recorded on large random trees (present cells, their successors, random and out-of-range indices) validated by TLC (FmmTrace!TFind)
+    trace_campaign(run, "C16", run.tier, modes=(0, 1), events=1 | 2 | 4)
     run.coverage["rule"] = TREE_RULE + "; every index from -1 to the upper bound of every level is looked up (sampled above 4096 indices per level, always including every present index and its two neighbours)"
     run.coverage["exhaustive"] = True
     run.assumptions += FMM_ASSUME[:1] + FMM_ASSUME[2:]
@@ -467,7 +471,7 @@ def check_c02(run):
     cs.append(("2d-h3-per", fmm_constants(2, 3, [0, 3, 5, 10, 15], periodic=True, stops=(1,), bss=(1, 2, 20))))
     cs.append(("tsm-1d-h4", fmm_constants(1, 4, range(5), mode="tsm", bss=(1, 2, 3))))
     run_fmm_configs(run, "C02", cs, cap=256)
-    trace_campaign(run, "C02", run.tier, modes=(0, 1))
+    trace_campaign(run, "C02", run.tier, modes=(0, 1), events=4)
     run.coverage["rule"] = FMM_RULE + "; every operator call made by the library is checked: particles inside the leaf box with original index and data, children distinct children of the parent with true octant codes, sources at the encoded offset (modulo the box when periodic), well separated / adjacent, at the stated level, never an empty list"
     run.coverage["exhaustive"] = True
     run.assumptions += FMM_ASSUME + ["OpenMP executors are covered by C03's check; Hilbert ordering only by C11 (known finding)"]
@@ -509,6 +513,8 @@ def check_c12(run):
               ("3d-h3", fmm_constants(3, 3, POOL_3D_H3[:6], bss=(1, 2, 20), stops=(0, 1, 2, 3), hists=hists)),
               ("tsm-1d-h4", fmm_constants(1, 4, range(4), mode="tsm", bss=(1, 2), stops=(0, 2, 4), hists=hists))]
     pairs = run_fmm_configs(run, "C12", cs)
+    # code -> spec: staged executes recorded on large random trees: every call of every stage must be an enabled batch, nothing pending at the end
+    trace_campaign(run, "C12", run.tier, modes=(0, 1), events=4)
     # staged histories must end in the state of the single full run (model side: compare the digests TLC printed)
     byocc = {}
     for r, line in pairs:
@@ -544,6 +550,8 @@ def check_c13(run):
               ("tsm-2d-h3", fmm_constants(2, 3, [0, 3, 6, 9, 15], mode="tsm", maxparts=3, bss=(1, 2, 20), hists=hists)),
               ("tsm-3d-h3", fmm_constants(3, 3, POOL_3D_H3[:4], mode="tsm", maxparts=2, bss=(1, 2), hists=hists))]
     run_fmm_configs(run, "C13", cs)
+    # code -> spec: sessions with in-place moves of 1-3 particles (to random leaves or onto other particles' leaves), rebuild and a second pass on large random trees
+    trace_campaign(run, "C13", run.tier, modes=(0, 1), events=1 | 4)
     run.coverage["rule"] = FMM_RULE + "; histories: execute / rebuild / execute (results must hold exactly two full interactions), and moves of one or two particles to the next pool leaf (emptying and creating leaves, changing the number of groups) followed by rebuild and execute, twice; after every rebuild the real tree must equal the fresh build TLC computed from the edited particles, keep index, data and results bit-exactly and have zeroed expansions"
     run.coverage["exhaustive"] = True
     run.assumptions += FMM_ASSUME + ["target/source trees: the moved particle is a target, TbfTreeTsm::rebuild() re-bins both trees; rebuild of periodic and Hilbert trees is compiled and run by C19's matrix"]
@@ -572,7 +580,7 @@ def check_c01(run):
         cs.append(("2d-h4-multi", fmm_constants(2, 4, POOL_2D_H4[:5], maxper=2, bss=(1, 2, 20), stops=(0, 2, 3))))
     run_fmm_configs(run, "C01", cs)
     # beyond the enumerated pools: recorded executions of large random trees validated by TLC (nothing lost, nothing twice)
-    trace_campaign(run, "C01", run.tier)
+    trace_campaign(run, "C01", run.tier, events=4)
     run.coverage["rule"] = FMM_RULE + "; plus code->spec trace validation: recorded kernel-call traces of random trees (1-D height 7-8, 2-D height 5-6, 3-D height 4-5, up to 60 particles) must be accepted by FmmTrace.tla"
     run.coverage["exhaustive"] = True
     run.assumptions += FMM_ASSUME
@@ -581,12 +589,12 @@ def check_c01(run):
 # =====================================================================================================
 # code -> spec: traces recorded from the real executors on large random trees, validated by TLC (FmmTrace.tla)
 # =====================================================================================================
-def trace_validate(run, name, dim, height, periodic, mode, nexec, maxn, pid):
+def trace_validate(run, name, dim, height, periodic, mode, nexec, maxn, pid, events=0):
     """Record nexec executions (sequential / OpenMP under a seeded random mock schedule alternate) of trees with up to maxn particles and
     let TLC accept or reject the concatenated trace: every kernel call must be an enabled batch of the dataflow layer with exactly
     its logged arguments; End requires that nothing is pending."""
     binp = need(build("record_fmm_%d_%d" % (dim, int(periodic)), "record_fmm.cpp", ["DIMV=%d" % dim, "PERIODICV=%d" % int(periodic), "CAPV=1024"]), run)
-    rc, out, err = run_bin(binp, [height, run.seed, nexec, maxn, mode], timeout=600)
+    rc, out, err = run_bin(binp, [height, run.seed, nexec, maxn, mode, events], timeout=600)
     if rc != 0 or not out.startswith('{"e":"Init"'):
         if rc == 3 or "MISMATCH kind=Crash" in out:
             run.violation("Crash:" + name, "the executor crashed while a trace was recorded: " + out[-300:], None)
@@ -607,8 +615,9 @@ def trace_validate(run, name, dim, height, periodic, mode, nexec, maxn, pid):
     m = re.search(r"The depth of the complete state graph search is (\d+)", log_txt)
     consumed = int(m.group(1)) - 1 if m else 0
     res.ok = True
-    run.add_tlc(name, res, note="FmmTrace.tla on %d recorded executions (%d kernel-call events) of dim %d height %d %s trees with up to %d particles; consumed %d events" % (
-        nexec, nlines, dim, height, "target/source" if mode else "single", maxn, consumed))
+    run.add_tlc(name, res, note="FmmTrace.tla on %d recorded sessions (%d events: kernel calls%s%s%s) of dim %d height %d %s trees with up to %d particles; consumed %d events" % (
+        nexec, nlines, ", group structures" if events & 1 else "", ", look-ups" if events & 2 else "", ", staged executes and move/rebuild/second pass" if events & 4 else "",
+        dim, height, "target/source" if mode else "single", maxn, consumed))
     run.coverage["traces_validated_against_impl"] += nexec
     run.coverage["trace_events_validated"] = run.coverage.get("trace_events_validated", 0) + consumed
     if consumed != nlines:
@@ -620,19 +629,23 @@ def trace_validate(run, name, dim, height, periodic, mode, nexec, maxn, pid):
         os.makedirs(vlib.REPLAYS, exist_ok=True)
         shutil.copy(tpath, keep)
         run.violation("TraceRejected:" + name, "TLC rejects the recorded execution at event %d: %s  (execution header: %s)" % (consumed + 1, badline[:200], (init[-1] if init else "")[:200]),
-                      run.write_replay("TraceRejected-" + name, {"kind": "trace", "trace": keep, "dim": dim, "height": height, "periodic": periodic, "mode": mode, "rejected_line": consumed + 1, "event": badline}))
+                      run.write_replay("TraceRejected-" + name, {"kind": "trace", "trace": keep, "dim": dim, "height": height, "periodic": periodic, "mode": mode, "events": events, "rejected_line": consumed + 1, "event": badline}))
     else:
         run.sample({"validated_trace": name, "events": nlines, "first_event": out.splitlines()[0][:300]})
+        os.remove(tpath)
 
 
-def trace_campaign(run, pid, tier, modes=(0,), periodic=False):
-    if tier == "quick":
-        classes = [(1, 7, 20, 40), (2, 5, 12, 40), (3, 4, 6, 30)]
-    else:
-        classes = [(1, 8, 60, 60), (2, 6, 40, 60), (3, 4, 30, 60), (3, 5, 10, 40), (4, 3, 10, 20)]
+def trace_campaign(run, pid, tier, modes=(0,), periodic=False, events=0, classes=None):
+    """events: bit mask of record_fmm (1 group structures, 2 look-ups, 4 staged executes and move / rebuild / second pass)"""
+    if classes is None:
+        if tier == "quick":
+            classes = [(1, 7, 20, 40), (2, 5, 12, 40), (3, 4, 6, 30)]
+        else:
+            classes = [(1, 8, 60, 60), (2, 6, 40, 60), (3, 4, 30, 60), (3, 5, 10, 40), (4, 3, 10, 20)]
     jobs = [(d, h, n, mx, m) for (d, h, n, mx) in classes for m in modes]
     with ThreadPoolExecutor(max_workers=4) as ex:
-        list(ex.map(lambda j: trace_validate(run, "%s-trace-%dd-h%d-%s%s" % (pid, j[0], j[1], "tsm" if j[4] else "single", "-per" if periodic else ""), j[0], j[1], periodic, j[4], j[2], j[3], pid), jobs))
+        list(ex.map(lambda j: trace_validate(run, "%s-trace%s-%dd-h%d-%s%s" % (pid, ("-ev%d" % events) if events else "", j[0], j[1], "tsm" if j[4] else "single", "-per" if periodic else ""),
+                                             j[0], j[1], periodic, j[4], j[2], j[3], pid, events), jobs))
 
 
 # =====================================================================================================
@@ -826,7 +839,7 @@ def check_c03(run):
         for pairs, mism in outs:
             report_mismatches(run, "C03", "C03-" + name, pairs, mism, C03_KINDS)
     # code -> spec: kernel-call traces of the OpenMP executors under seeded random schedules must respect the dataflow guards of Fmm.tla
-    trace_campaign(run, "C03", run.tier, modes=(0, 1))
+    trace_campaign(run, "C03", run.tier, modes=(0, 1), events=4)
     # lifetime of captured variables: the same schedules on the AddressSanitizer build (detect_stack_use_after_return)
     for name, consts in omp_configs(run.tier)[:: (2 if run.tier == "quick" else 1)]:
         pairs, mism, _ = omp_campaign(run, "C03-asan-" + name, consts, "quick", variant="asan", graphs=0, limit=60 if run.tier == "quick" else 400)
@@ -1251,6 +1264,36 @@ def cmd_selftest(args):
     n = consumed(lines[:idx + 1] + [lines[idx]] + lines[idx + 1:], "dup")
     log("selftest: P2P call %d duplicated -> consumed %d (%s)" % (idx + 1, n, "rejected at the duplicate" if n == idx + 1 else "NOT rejected where expected"))
     ok &= n == idx + 1
+    # sessions with group structures, look-ups and move / rebuild / second pass
+    rc, out, err = run_bin(binp, [5, 11, 8, 25, 0, 7])
+    lines = out.splitlines()
+    n = consumed(lines, "ev7-clean")
+    log("selftest: clean session trace with Tree / Find / Rebuild events: %d of %d events accepted" % (n, len(lines)))
+    ok &= n == len(lines)
+    for k, l in enumerate(lines):            # a cell moved from one group to the next in a recorded group structure
+        if l.startswith('{"e":"Tree"'):
+            ev = json.loads(l)
+            lv = [x for x in range(len(ev["groups"])) if len(ev["groups"][x]) >= 2 and len(ev["groups"][x][0]) >= 2]
+            if lv:
+                g = ev["groups"][lv[0]]; g[1].insert(0, g[0].pop()); idx = k
+                break
+    n = consumed(lines[:idx] + [json.dumps(ev)] + lines[idx + 1:], "ev7-tree")
+    log("selftest: group boundary shifted in the Tree event %d -> consumed %d (%s)" % (idx + 1, n, "rejected there" if n == idx else "NOT rejected where expected"))
+    ok &= n == idx
+    idx = [k for k, l in enumerate(lines) if l.startswith('{"e":"Find"') and '"g":0' not in l][5]
+    ev = json.loads(lines[idx]); ev["p"] += 1
+    n = consumed(lines[:idx] + [json.dumps(ev)] + lines[idx + 1:], "ev7-find")
+    log("selftest: position altered in the Find event %d -> consumed %d (%s)" % (idx + 1, n, "rejected there" if n == idx else "NOT rejected where expected"))
+    ok &= n == idx
+    idx = [k for k, l in enumerate(lines) if l.startswith('{"e":"Find"') and '"g":0' in l][2]
+    ev = json.loads(lines[idx]); ev["g"] = 1; ev["p"] = 1
+    n = consumed(lines[:idx] + [json.dumps(ev)] + lines[idx + 1:], "ev7-find2")
+    log("selftest: a look-up of an absent cell reported as found (event %d) -> consumed %d (%s)" % (idx + 1, n, "rejected there" if n == idx else "NOT rejected where expected"))
+    ok &= n == idx
+    idx = [k for k, l in enumerate(lines) if l.startswith('{"e":"Rebuild"')][0]
+    n = consumed(lines[:idx] + lines[idx + 1:], "ev7-norebuild")
+    log("selftest: Rebuild event %d dropped (second pass on a stale occupancy) -> consumed %d of %d (%s)" % (idx + 1, n, len(lines) - 1, "rejected" if n < len(lines) - 1 else "NOT rejected"))
+    ok &= n < len(lines) - 1
     if getattr(args, "mutants", False):
         sd = os.path.join(VERIF, "seeded")
         scratch = os.path.join(os.environ.get("TMPDIR", "/tmp"), "verif-selftest-%d" % os.getpid())
